@@ -470,6 +470,20 @@ func (s *Store) BinBV(op Op, a, b *T) *T {
 		if b.IsConst() && b.C == 0 {
 			return a
 		}
+		if op == OSub {
+			if a == b {
+				return s.BVC(0, int(w))
+			}
+			// (x + k) - x = k
+			if a.Op == OAdd {
+				if a.Args[0] == b && a.Args[1].IsConst() {
+					return a.Args[1]
+				}
+				if a.Args[1] == b && a.Args[0].IsConst() {
+					return a.Args[0]
+				}
+			}
+		}
 	case OMul:
 		if a.IsConst() && a.C == 1 {
 			return b
